@@ -32,7 +32,7 @@ import (
 func init() {
 	mon.RegisterCfg("C07", mon.Config{
 		Rule: "mutated: generated GSUB/GPOS/GDEF tables are encoded, mutated at the byte level (0-4 mutations), re-read with gtab.Read/gdef.Read and applied to 4 sequences of length 0..200 over the full glyph id range (biased to glyphs the tables mention); " +
-			"hostile: 16 named hostile shapes x 6 contextual formats built as structures, encoded, re-read (the shape must survive the round trip) and applied; the structure itself is applied as well; hostile-bytes: 7 hostile GSUB shapes written byte by byte from the specification (no library encoder involved), read and applied; " +
+			"hostile: 17 named hostile shapes x 6 contextual formats built as structures, encoded, re-read (the shape must survive the round trip) and applied; the structure itself is applied as well; hostile-bytes: 9 hostile GSUB shapes (incl. aliasing (type, format) pairs and 5 subtable kinds x 8 inconsistent coverage tables) written byte by byte from the specification (no library encoder involved), read and applied; " +
 			"history: one Context reused for 1..30 calls alternating benign and budget-exhausting inputs, each result compared with a fresh Context; layouter: sfnt.Layouter reused over several strings vs a fresh Layouter; " +
 			"evaluations = Apply/Layout calls judged; distinct = distinct (table bytes, sequence) pairs",
 		Assumptions: []string{
@@ -480,7 +480,7 @@ func runC07(c *mon.Ctx) {
 		r := k.Rng
 		sizes := []int{5, 8, 20, 60}
 		alpha := otlmini.Random(r, sizes[r.IntN(len(sizes))], []int{300, 65535}[r.IntN(2)])
-		g := &otlmini.Gen{R: r, A: alpha, WildFlags: true, MaxSeq: 2 + r.IntN(3), MaxNested: 1 + r.IntN(4)}
+		g := &otlmini.Gen{R: r, A: alpha, WildFlags: true, MaxSeq: 2 + r.IntN(4), MaxNested: 1 + r.IntN(4)}
 		kind := allKinds[r.IntN(len(allKinds))]
 		list := g.GenList(kind, otlmini.FlagSet(r.IntN(int(otlmini.NumFlagSets))), 1+r.IntN(4), 1+r.IntN(3), r.IntN(3) == 0)
 		nMut := r.IntN(5)
@@ -536,7 +536,7 @@ func runC07(c *mon.Ctx) {
 	// (W2/W3) hostile shapes: structure -> bytes -> reader -> Apply, and the structure itself
 	c.Stratum("hostile", c.N(6400, 160000), func(k *mon.Case) {
 		r := k.Rng
-		sh := c07buildShape(r, k.Index+k.Index/16)
+		sh := c07buildShape(r, k.Index)
 		desc := c07describeShape(sh)
 		ll, data, why := c07roundTrip(k, sh.ll, sh.gpos, nil)
 		if ll == nil {
@@ -669,7 +669,7 @@ func runC07(c *mon.Ctx) {
 
 	for _, name := range c07shapeNames {
 		switch name {
-		case "lookup-index-oob", "sequence-index-oob", "self-referential":
+		case "lookup-index-oob", "sequence-index-oob", "self-referential", "context-over-mark-with-marks-ignoring-ligature":
 			for _, f := range c07ctxNames {
 				c.Require("shape-applied:" + name + ":" + f)
 			}
